@@ -156,4 +156,12 @@ def run_bounded(bname, pid, tier, seed, scratch):
 
 
 if __name__ == '__main__':
-    main()
+    try:
+        main()
+    except SystemExit:
+        raise
+    except BaseException:
+        # a crash of the checker is never a verdict about the property
+        traceback.print_exc()
+        print('CHECKER-CRASH property=%s' % ' '.join(sys.argv[1:]))
+        sys.exit(3)
